@@ -17,7 +17,8 @@ LEVEL = "exploration"
 OWNS_PARSING = True
 RULE = (
     "Hypothesis-generated trees of modules (depth <= 3, dotted paths, sub-directories, every declaration kind inside "
-    "modules; each module only uses types visible inside it) written as real files to a scratch directory; the single-file "
+    "modules; each module only uses types visible inside it; some file names are reused in different directories, including "
+    "byte-identical index modules whose imports resolve to different leaf files) written as real files to a scratch directory; the single-file "
     "schema is the in-order inlining. Oracle (a) get_fcp(root).to_dict() — absolute path, and relative path from another "
     "cwd — == get_fcp_from_string(inlined).to_dict() == tree built from the description; (b) one injected fault in a chosen "
     "module (illegal character, unterminated declaration, undeclared type, missing file) => Err (never Ok, never an "
@@ -35,6 +36,8 @@ FLOORS = {
     "fault": 0.25,
     "fault_below_depth1": 0.05,
     "relative_path": 0.20,
+    "same_file_name_in_different_dirs": 0.05,
+    "identical_modules_in_different_dirs": 0.02,
 }
 
 FAULTS = ["illegal_char", "unterminated", "undeclared_type", "missing_file"]
@@ -74,6 +77,12 @@ def apply_fault(files: Dict[str, str], mods: List[Tuple[str, M.Schema, int]], fa
 def classes_of(tree: M.Schema, fault: Any, rel: bool) -> List[str]:
     mods = MO.module_files(tree)
     cl = []
+    texts = [(os.path.basename(p), printer.to_text(s_)) for p, s_, _d in mods]
+    if len(set(texts)) < len(texts):
+        cl.append("identical_modules_in_different_dirs")
+    bases = [os.path.basename(p) for p, _s, _d in mods] + ["main.fcp"]
+    if len(set(bases)) < len(bases):
+        cl.append("same_file_name_in_different_dirs")
     if len(mods) >= 1:
         cl.append("has_module")
     if len(mods) >= 2 and any(d >= 2 or "/" in p for p, _s, d in mods):
